@@ -1,11 +1,11 @@
 (* C04 - Client: replies are matched to requests by id, whatever the peer's ordering.
-   Property theorems only; every proof is `exact <lemma>` (lemmas in coq/cli/CliProofs.v, CliHist.v, CliSend.v, CliFed.v;
+   Property theorems only; every proof is `exact <lemma>` (lemmas in coq/cli/CliProofs.v, CliHist.v, CliSend.v, CliFed.v, CliWire.v;
    invariants in coq/cli/CliInv.v, CliCtx.v, CliOps.v, CliHist.v, CliSend.v).  [traces_to c tr s]: s is the state of the client model after the label sequence
    tr (any interleaving of API calls, context ends, peer records, transport faults and goroutine
    releases) from the initial state with hook configuration c. *)
 From Coq Require Import List NArith ZArith Bool Arith.
 From RecordUpdate Require Import RecordUpdate.
-From JV Require Import Bytes Msg CliModel CliLemmas CliInv CliProofs CliCtx CliOps CliHist CliSend CliFed.
+From JV Require Import Bytes Msg CliModel CliLemmas CliInv CliProofs CliCtx CliOps CliHist CliSend CliFed CliWire.
 Import ListNotations.
 
 (* ids allocated are pairwise distinct; no two pending entries share an id; every pending entry is the
@@ -72,18 +72,35 @@ Proof. exact delivered_are_fed. Qed.
 Print Assumptions c04_delivered_are_fed.
 
 (* the id the replies are matched under is the id that went out on the wire: a returned Call sent one request
-   carrying its slot's id; a returned Batch sent one record with one member per spec, and its responses are, in
-   order, those for the ids at the non-notification positions of that record (one response per non-notification
-   spec, in spec order, notifications omitted) *)
+   carrying its slot's id, the spec's method and parameters; a returned Batch sent one record [ms] - its own
+   [req_members] - with one member per spec in spec order, each carrying its spec's method and parameters
+   ([mem_payload] / [spec_payload]), no id at the notification positions and, at the other positions in order, the ids
+   of the operation's slots; and its responses are, in order, those for the ids at the non-notification positions of
+   that record (one response per non-notification spec, in spec order, notifications omitted) *)
 Theorem c04_wire_ids : forall c tr s, traces_to c tr s ->
   (forall n r, In (ORet n (RetCall r)) (hist s) ->
      exists o i sl sp, op_at s n = Some o /\ o_specs o = [sp] /\ sp_notify sp = false /\ o_slots o = [i] /\ slot_at s i = Some sl
        /\ In (OSendReq true false [(id_text (sl_id sl), sp_method sp, sp_params sp)]) (hist s))
   /\ (forall n rs, In (ORet n (RetBatch rs)) (hist s) ->
         exists o ms, op_at s n = Some o /\ In (OSendReq true (negb (length (o_specs o) =? 1)) ms) (hist s)
-          /\ length ms = length (o_specs o) /\ map fst rs = nn_ids (o_specs o) ms /\ length rs = nn (o_specs o)).
-Proof. exact wire_ids. Qed.
+          /\ length ms = length (o_specs o) /\ map fst rs = nn_ids (o_specs o) ms /\ length rs = nn (o_specs o)
+          /\ ms = req_members (o_specs o) (o_slots o) s
+          /\ map mem_payload ms = map spec_payload (o_specs o)
+          /\ Forall2 (fun sp m => sp_notify sp = true -> fst (fst m) = []) (o_specs o) ms
+          /\ nn_ids (o_specs o) ms = map (slot_text s) (o_slots o)).
+Proof. exact wire_ids_full. Qed.
 Print Assumptions c04_wire_ids.
+
+(* EACH REPLY IS CONSUMED BY AT MOST ONE REQUEST (global form, every trace): one member (j, k) of the peer's records
+   is the source of at most one slot value - two slots whose values came from the same member are the same slot - and
+   the slot that consumed it bears the member's id *)
+Theorem c04_reply_single_consumer : forall c tr s, traces_to c tr s ->
+  (forall i i' sl sl' v v' j k, slot_at s i = Some sl -> slot_at s i' = Some sl' -> sl_buf sl = Some v -> sl_buf sl' = Some v' ->
+     v_src v = SPeer j k -> v_src v' = SPeer j k -> i = i')
+  /\ (forall i sl v j k, slot_at s i = Some sl -> sl_buf sl = Some v -> v_src v = SPeer j k ->
+        exists m, member_at s j k m /\ is_req_or_notif m = false /\ fix_id (j_id m) = id_text (sl_id sl) /\ v = val_of_member j k m).
+Proof. exact reply_single_consumer. Qed.
+Print Assumptions c04_reply_single_consumer.
 
 (* per-operation determinacy: if the caller's context did not end and the client did not stop, the value returned
    is a function of the payload of the members carrying the request's id alone ([answers s key f a]: every
